@@ -168,7 +168,7 @@ func TestC07(t *testing.T) {
 	run := rep.Start("C07", "translation_validation")
 	defer run.Finish(t)
 	ctx := context.Background()
-	deadline := rep.Deadline(4*time.Minute, 45*time.Minute)
+	deadline := rep.Deadline(4*time.Minute, 30*time.Minute)
 	var mu sync.Mutex
 	report := func(sig string, d map[string]any) {
 		mu.Lock()
